@@ -24,7 +24,7 @@ RId(e) == e.r
 EvStep ==
   /\ More
   /\ LET e == Ev IN
-     CASE e.ev = "Yield"     -> Yield(e.g) /\ yielded'[e.g] = e.i
+     CASE e.ev = "Yield"     -> (Yield(e.g) /\ yielded'[e.g] = e.i) \/ (LateYield(e.g) /\ e.i > yielded[e.g])
        [] e.ev = "GenEnd"    -> GenEnd(e.g, e.how)
        [] e.ev = "ThreadEnd" -> ThreadEnd(e.g)
        [] e.ev = "InitCall"  -> InitCall(e.r)
